@@ -7,11 +7,27 @@
 fn quota_count_limit(max_processor_time: f64) -> Option<usize>
 //@ end
 
-//@ extract block packages/many_cpus_impl/src/pal/linux/platform.rs Platform for BuildTargetPlatform::max_processor_time from "if let Some(cgroup_max_processor_time) = self.cgroups_max_processor_time() {" to-block-end
-//@ wrap
-fn max_processor_time_tail(max_processor_time: f64, cgroups: Option<f64>) -> f64
-//@ rewrite "self.cgroups_max_processor_time()" "cgroups"
+// The whole body of Platform::max_processor_time, over a stand-in that offers exactly the observers the body may
+// consult: the REPORTED processors (online and allowed: `get_all_processors()`), the cached list that also holds
+// inactive processors (`get_all_processors_impl()`), and the cgroup quota.
+pub struct PlatformStub {
+    reported: Vec<u32>,
+    including_inactive: Vec<u32>,
+    cgroup: Option<f64>,
+}
+impl PlatformStub {
+    fn get_all_processors(&self) -> Vec<u32> {
+        self.reported.clone()
+    }
+    fn get_all_processors_impl(&self) -> &Vec<u32> {
+        &self.including_inactive
+    }
+    fn cgroups_max_processor_time(&self) -> Option<f64> {
+        self.cgroup
+    }
+//@ extract fn packages/many_cpus_impl/src/pal/linux/platform.rs Platform for BuildTargetPlatform::max_processor_time
 //@ end
+}
 
 #[cfg(kani)]
 mod harness {
@@ -34,20 +50,35 @@ mod harness {
         }
     }
 
-    /// The processor-time quota is the smaller of the processor count and the cgroup quota/period.
-    #[kani::proof]
-    fn max_processor_time_is_min() {
-        let n: u16 = kani::any();
-        kani::assume(n >= 1);
-        let count = n as f64;
+    /// The processor-time quota is the smaller of the REPORTED processor count and the cgroup quota/period.
+    fn max_processor_time_contract(reported: usize, inactive: usize) {
+        let mut r = Vec::with_capacity(reported);
+        let mut all = Vec::with_capacity(reported + inactive);
+        let mut i = 0;
+        while i < reported + inactive {
+            if i < reported {
+                r.push(i as u32);
+            }
+            all.push(i as u32);
+            i += 1;
+        }
         let cg: f64 = kani::any();
         let has: bool = kani::any();
-        let r = max_processor_time_tail(count, if has { Some(cg) } else { None });
+        let p = PlatformStub { reported: r, including_inactive: all, cgroup: if has { Some(cg) } else { None } };
+        let got = p.max_processor_time();
+        let count = reported as f64;
         if !has || cg.is_nan() {
-            assert!(r == count, "C11.quota_without_cgroup_is_processor_count");
+            assert!(got == count, "C11.quota_without_cgroup_is_reported_processor_count");
         } else {
-            assert!(r == if cg < count { cg } else { count }, "C11.quota_is_min_of_count_and_cgroup");
+            assert!(got == if cg < count { cg } else { count }, "C11.quota_is_min_of_reported_count_and_cgroup");
         }
+    }
+    #[kani::proof]
+    #[kani::unwind(8)]
+    fn max_processor_time_is_min() {
+        max_processor_time_contract(1, 0);
+        max_processor_time_contract(2, 2);
+        max_processor_time_contract(3, 1);
     }
 }
 fn main() {}
